@@ -37,9 +37,9 @@ CLAIMS = {
    note=TRUST + 'RFC 7845 family-1 table transcribed into the checker.',
    technique='table predicates on evaluated initialisers + edge-dominance guard facts + sibling agreement of call-site arguments'),
  'C15': dict(category='other',
-   text='Partial (dispatch soundness, a necessary condition only): every RTCD table entry at level i comes from a TU whose -m ISA flags are within level i, selectable entries non-NULL, max(opus_select_arch) indexes an initialised entry, every table use is masked, no direct call into a TU with more ISA flags, and each level is returned only after CPUID tests covering the flags its kernels were compiled with. Numerical/bit identity of SIMD kernels vs C is NOT decided (run-time relation).',
+   text='Partial (dispatch soundness and saturation agreement, necessary conditions only): every RTCD table entry at level i comes from a TU whose -m ISA flags are within level i, selectable entries non-NULL, max(opus_select_arch) indexes an initialised entry, every table use is masked, no direct call into a TU with more ISA flags, and each level is returned only after CPUID tests covering the flags its kernels were compiled with. Where a C kernel and its SIMD twin both saturate what they store into an 8/16-bit array they saturate to the same range (float and fixed-point configurations); one genuine defect found this way (fixed-point celt_fir_sse4_1 vs celt_fir_c) was repaired. Numerical/bit identity of SIMD kernels vs C in general is NOT decided (run-time relation).',
    note=TRUST + 'CPUID feature-bit table (leaf/register/bit) in the checker; -m flags from the cmake compilation database.',
-   technique='function-pointer table predicates joined with compile-database ISA flags + must-dataflow over the CPU-detection CFG'),
+   technique='function-pointer table predicates joined with compile-database ISA flags + must-dataflow over the CPU-detection CFG + sibling agreement of store ranges (interval analysis of scalar stores, reaching definitions of stored vectors through pack/min/max intrinsics)'),
  'C16': dict(category='other',
    text='Partial: every byte store of the extension generator happens with len-pos >= 1 (interval analysis of the ghost difference len-pos) or under a dominating len-pos check built from the loop/copy length terms, failing checks return OPUS_BUFFER_TOO_SMALL; data!=NULL controls only stores through data (dry-run size = written size); argument validation precedes use and all 35 subscripts of the 48-entry tables are proven in range; iterator/skip helpers read packet bytes only under a positive-length fact; an extension is reported only after its payload was validated and frame-counter changes are range-checked; repacketizer count/parse passes agree. Round-trip equality parse(generate(x))=x is NOT decided.',
    note=TRUST + 'One inter-procedural read (curr_data0[1]) is a frozen, reasoned exception re-checked against the callee-result test.',
